@@ -9,4 +9,5 @@ CONSTANTS
  ChunkLimit = 6
  RetryLimit = 10
  HttpRetries = 5
+ IgnoreInvalidDigest = FALSE
 INVARIANTS Emit
